@@ -333,6 +333,17 @@ theorem C34_getters_union (gs : List (Bool × Answer)) (x : String) :
   rw [List.mem_cons, foldl_getters]
   simp
 
+/-- the same for roles (plus `'self'` exactly when the user is the object) and for labels -/
+theorem C34_role_label_getters_union (isSelf : Bool) (gs : List (Bool × Answer)) (x : String) :
+    (x ∈ rolesFromGetters isSelf gs ↔
+      (isSelf = true ∧ x = "self") ∨ ∃ g ∈ gs, g.1 = true ∧ (g.2 = .single x ∨ ∃ l, g.2 = .many l ∧ x ∈ l)) ∧
+    (x ∈ labelsFromGetters gs ↔ ∃ g ∈ gs, g.1 = true ∧ (g.2 = .single x ∨ ∃ l, g.2 = .many l ∧ x ∈ l)) := by
+  unfold rolesFromGetters labelsFromGetters foldGetters
+  constructor
+  · rw [List.mem_append, foldl_getters]
+    cases isSelf <;> simp
+  · rw [foldl_getters]; simp
+
 example : groupsFromGetters [(true, .single "a b"), (false, .many ["x"]), (true, .nothing), (true, .many ["g", "h"])] =
     ["anybody", "a b", "g", "h"] := by decide
 
